@@ -72,6 +72,18 @@ class Minimiser:
                 break
             else:
                 n = min(len(ops), n * 2)
+        # interleavings: issue the nested operation AFTER its host instead of inside it; kept only when the same
+        # violation persists (then the violation does not need the interleaving)
+        for k in range(len(sc["ops"])):
+            if sc["ops"][k].get("nested") and time.monotonic() < self.deadline:
+                c = copy.deepcopy(sc)
+                inner = c["ops"][k].pop("nested")
+                c["ops"].insert(k + 1, inner)
+                i, r = self.test_many([c])
+                if i is not None:
+                    sc, best_v = c, r["violation"]
+                    sc["ops"] = sc["ops"][: r["violation"]["step"] + 1]
+                    break
         # drop faults
         for k in range(len(sc["ops"])):
             if sc["ops"][k].get("fault"):
@@ -114,6 +126,8 @@ class Minimiser:
             c = copy.deepcopy(base)
             cop = c["ops"][k]
             fid = cop["frame"]
+            if any((o.get("nested") or {}).get("frame") == fid for o in c["ops"]) or cop.get("nested"):
+                return None  # a frame also read by an interleaved operation keeps its rows
             nrows = F.n_rows(c["frames"][fid])
             keep = [j for j in range(nrows) if j not in drop]
             if not keep:
@@ -160,9 +174,10 @@ class Minimiser:
                     chunk //= 2
         # shrink training frames: rows no evaluation refers to, columns no formula uses
         roots = {op["id"]: op for op in sc["ops"] if op["op"] in ("build", "rebuild") and "frame" in op}
+        has_nested = any(op.get("nested") for op in sc["ops"])
         for tid in sorted(set(op["frame"] for op in roots.values())):
-            if time.monotonic() > self.deadline:
-                break
+            if time.monotonic() > self.deadline or has_nested:
+                break  # (row positions held by nested operations are not remapped: leave training frames alone)
             ev_ops = [k for k, op in enumerate(sc["ops"]) if op["op"] == "eval" and op.get("kind") == "rows"
                       and roots.get(op.get("root"), {}).get("frame") == tid]
             referenced = set(i for k in ev_ops for i in sc["ops"][k]["idx"])
@@ -190,7 +205,7 @@ class Minimiser:
                 if not progressed:
                     chunk //= 2
         used_cols = set()
-        for op in sc["ops"]:
+        for op in [oo for t in sc["ops"] for oo in (t, t.get("nested")) if oo]:
             if "fm" in op:
                 used_cols |= set(op["fm"]["used"])
         if used_cols:
@@ -204,7 +219,7 @@ class Minimiser:
                 sc, best_v = c, r["violation"]
         # drop unused frames and clients' leftovers
         used = set()
-        for op in sc["ops"]:
+        for op in [oo for t in sc["ops"] for oo in (t, t.get("nested")) if oo]:
             for key in ("frame", "twin"):
                 if op.get(key):
                     used.add(op[key])
